@@ -382,6 +382,17 @@ func (c *vfClient) Req(format string, args ...any) (int, []*vfFrame) {
 	if ct := vfCtrl(fr, id); ct != nil {
 		return ct.Code, fr
 	}
+	for _, f := range fr {
+		if f.Msg != nil && f.Msg.Meta != nil && f.Msg.Meta.Id == id {
+			return 200, fr // answered by {meta} alone
+		}
+	}
+	for _, f := range fr {
+		// refused before reaching its handler: the error reply carries no id
+		if f.Msg != nil && f.Msg.Ctrl != nil && f.Msg.Ctrl.Id == "" && f.Msg.Ctrl.Code >= 400 {
+			return f.Msg.Ctrl.Code, fr
+		}
+	}
 	return 0, fr
 }
 
